@@ -88,26 +88,42 @@ Conforms(tl, handler) ==
   /\ \A j \in 1..Len(tl) : tl[j][1] = "out" => tl[j][2] \in {"PUBACK", "PUBREC", "PUBCOMP"}
   /\ \A j \in 1..Len(tl) : tl[j][1] # "close"
 
+\* What has been consumed has been handed over -- also when the connection ends right afterwards because the
+\* acknowledgement cannot be written (the statement ties the hand-over to the ARRIVAL of the PUBLISH / the matching
+\* PUBREL, not to a successful acknowledgement).  Used for timelines that end with a failing write.
+HeAfter(tl, p, tags) == \E j \in (p + 1)..Len(tl) : tl[j][1] = "he" /\ tl[j][2] \in tags
+PendingTags(tl, p, id) ==      \* tags of the QoS 2 PUBLISHes with this id consumed before p and not released before p
+  LET rels == {j \in 1..(p - 1) : IsRelIn(tl[j]) /\ tl[j][3] = id}
+      lastRel == IF rels = {} THEN 0 ELSE CHOOSE x \in rels : \A y \in rels : y <= x
+  IN {tl[j][4] : j \in {x \in (lastRel + 1)..(p - 1) : IsPubIn(tl[x], 2) /\ tl[x][3] = id}}
+HandedOver(tl, handler) ==
+  handler =>
+    /\ \A p \in 1..Len(tl) : (IsPubIn(tl[p], 0) \/ IsPubIn(tl[p], 1)) => HeAfter(tl, p, {tl[p][4]})
+    /\ \A p \in 1..Len(tl) : (IsRelIn(tl[p]) /\ PendingTags(tl, p, tl[p][3]) # {}) => HeAfter(tl, p, PendingTags(tl, p, tl[p][3]))
+
 \* ---------------------------------------------------------------- Part 2
 CONSTANTS Letters,     \* set of [p |-> "PUB", q, id, dup] and [p |-> "REL", id]
           MaxLen,
           HasHandler,
           BugAckBeforeHandler,   \* non-vacuity switches: wrong implementations the invariant must reject
           BugDeliverOnPublish,
-          BugKeepAfterRelease
+          BugKeepAfterRelease,
+          AllowWriteFail,        \* the write of an acknowledgement may fail: serve returns, the connection ends
+          BugCompBeforeHandover  \* PUBCOMP written before the message is handed over (nothing handed over if it fails)
 
-VARIABLES n,      \* packets consumed
+VARIABLES dead,   \* serve has returned (a write failed)
+          n,      \* packets consumed
           buf,    \* subBuffer: id -> tag
           tl      \* timeline produced so far
 
-svars == <<n, buf, tl>>
+svars == <<dead, n, buf, tl>>
 
-SInit == n = 0 /\ buf = [x \in {} |-> 0] /\ tl = << >>
+SInit == dead = FALSE /\ n = 0 /\ buf = [x \in {} |-> 0] /\ tl = << >>
 
 H(tag) == IF HasHandler THEN <<<<"he", tag>>, <<"hl", tag>>>> ELSE << >>
 
 Recv(x) ==
-  /\ n < MaxLen
+  /\ n < MaxLen /\ ~dead /\ UNCHANGED dead
   /\ n' = n + 1
   /\ LET tag == n + 1 IN
      IF x.p = "PUB"
@@ -130,10 +146,23 @@ Recv(x) ==
           ELSE /\ tl' = Append(tl, <<"in", "PUBREL", x.id, 0, 0>>)
                /\ UNCHANGED buf
 
-SNext == \E x \in Letters : Recv(x)
+\* the same steps with the acknowledgement's write failing: serve returns the error, the connection is closed
+CloseEv == <<"close", "plan">>
+RecvFail(x) ==
+  /\ AllowWriteFail /\ n < MaxLen /\ ~dead /\ dead' = TRUE
+  /\ n' = n + 1 /\ UNCHANGED buf
+  /\ LET tag == n + 1 IN
+     IF x.p = "PUB"
+     THEN /\ x.q > 0
+          /\ tl' = tl \o <<<<"in", "PUBLISH", x.id, tag, x.q>>>> \o (IF x.q = 1 THEN H(tag) ELSE << >>) \o <<CloseEv>>
+     ELSE /\ x.id \in DOMAIN buf
+          /\ tl' = tl \o <<<<"in", "PUBREL", x.id, 0, 0>>>> \o (IF BugCompBeforeHandover THEN << >> ELSE H(buf[x.id])) \o <<CloseEv>>
+
+SNext == \E x \in Letters : Recv(x) \/ RecvFail(x)
 SSpec == SInit /\ [][SNext]_svars
 
-ImplConforms == Conforms(tl, HasHandler)
+ImplConforms == ~dead => Conforms(tl, HasHandler)
+ImplHandsOver == HandedOver(tl, HasHandler)
 \* the buffer holds exactly the QoS 2 messages received and not yet released
 BufferSound == \A id \in DOMAIN buf : \E j \in 1..Len(tl) : IsPubIn(tl[j], 2) /\ tl[j][3] = id /\ tl[j][4] = buf[id]
 =============================================================================
